@@ -27,6 +27,20 @@ In == [ n |-> GroupSize, active |-> ActiveThreshold, threshold |-> GroupThreshol
         members |-> members, misbehaved |-> Sorted(misbehaved), env |-> env, submitter |-> submitter,
         offers |-> Pairs(offers) ]
 
+\* what the contract says about a result: the fields, the hashes it recomputes and validate()
+View(r) ==
+    LET v == Validate(r, env.chainID, members, env.startBlock) IN
+    [ submitterMemberIndex |-> r.submitterMemberIndex,
+      groupPubKey |-> r.groupPubKey,
+      misbehavedMembersIndices |-> r.misbehavedMembersIndices,
+      signingMembersIndices |-> r.signingMembersIndices,
+      members |-> r.members,
+      membersHash |-> r.membersHash,
+      contractDigest |-> ContractDigest(r, env.chainID, env.startBlock),
+      contractGroupMembers |-> ContractGroupMembers(r).gm,
+      valid |-> v[1], msg |-> v[2],
+      submitterRule |-> SubmitterRule(r, members[submitter]) ]
+
 Emit == Terminal =>
     CSVWrite("%1$s", <<ToJson(
         IF pc = "aborted" THEN [in |-> In, pc |-> pc, outcome |-> outcome, accepted |-> Sorted(DOMAIN accepted)]
@@ -35,17 +49,10 @@ Emit == Terminal =>
           preferredHash |-> PreferredHash,
           accepted |-> Sorted(DOMAIN accepted),
           gate |-> GatePassed,
-          result |-> IF HasResult
-                     THEN [ submitterMemberIndex |-> result.submitterMemberIndex,
-                            groupPubKey |-> result.groupPubKey,
-                            misbehavedMembersIndices |-> result.misbehavedMembersIndices,
-                            signingMembersIndices |-> result.signingMembersIndices,
-                            members |-> result.members,
-                            membersHash |-> result.membersHash,
-                            contractDigest |-> ContractDigest(result, env.chainID, env.startBlock),
-                            contractGroupMembers |-> ContractGroupMembers(result).gm ]
-                     ELSE [none |-> TRUE],
-          verdict |-> IF HasVerdict THEN [valid |-> verdict[1], msg |-> verdict[2]] ELSE [none |-> TRUE],
+          result |-> IF HasResult THEN View(result) ELSE [none |-> TRUE],
+          \* had the member skipped its gate: the result it would assemble and the contract's answer
+          ungated |-> IF pc = "failed" /\ outcome = "too few signatures" /\ \A s \in DOMAIN accepted : accepted[s].len = 65
+                      THEN View(Assembled) ELSE [none |-> TRUE],
           client |-> IF pc = "done"
                      THEN [ walletID |-> client.walletID, registryWalletID |-> registry.walletID,
                             groupMembers |-> client.groupMembers, newIndex |-> Pairs(client.newIndex) ]
